@@ -257,6 +257,21 @@ class SymCtx:
     def fail(self, label, info=None):
         return self.check(False, label, info)
 
+    def check_close(self, a, b, tol, label, info=None):
+        """entrywise |a - b| <= tol (exact zero residuals are discharged syntactically)"""
+        conds = []
+        t = alg.const(tol)
+        for idx, x, y in _flat_pairs(a, b):
+            if idx == "shape":
+                return self.check(False, label, {"shape": (x, y)})
+            d = alg.const(x) - alg.const(y)
+            if alg.is_zero(d):
+                continue
+            conds.append(Cond("<=", (d.abs2() - t * t).re))
+        if not conds:
+            return self.check(True, label, info)
+        return self.check(Cond("and", *conds) if len(conds) > 1 else conds[0], label, info)
+
     def le(self, a, b):
         """a <= b (exact)"""
         return alg.const(a) <= alg.const(b)
@@ -284,6 +299,8 @@ class ConcCtx:
         self.used_values = {}
 
     def real(self, name, lo=None, hi=None):
+        if name in self.used_values:
+            return self.used_values[name]
         if name in self.values:
             v = float(self.values[name])
         else:
@@ -368,6 +385,9 @@ class ConcCtx:
 
     def fail(self, label, info=None):
         return self.check(False, label, info)
+
+    def check_close(self, a, b, tol, label, info=None):
+        return self.check_eq(a, b, label, info)
 
     def le(self, a, b):
         """a <= b up to the replay tolerance (float rounding is outside the claim)"""
